@@ -1377,6 +1377,8 @@ class UnitQuaternion(Quaternion):
         """
         assert base.isvector(w, 3), 'w must be a 3-vector'
         w = base.getvector(w)
+        if base.iszerovec(w):
+            return cls()  # zero rotation vector: identity, as documented
         theta = base.norm(w)
         s = math.cos(theta / 2)
         v = math.sin(theta / 2) * base.unitvec(w)
